@@ -43,4 +43,21 @@ where
     | [] => []
     | x :: xs => place c s a τ t x :: placeList c s a τ t xs
 
+/-- `rotate_translate_local` with the assertions of the code: `Polygon` and `ShapeGroup` assert `is_valid_orientation(angle)`
+    (shape.py:432-435, 541-544: angle within [-τ, τ]), `Rectangle` and `Circle` accept any angle (the rectangle wraps it).  A
+    group checks once at the top; its members are then placed with the same angle and pass their own checks. -/
+def placeChk (c s a τ : Rat) (t : Pt) : Shape → Res Shape
+  | .poly vs => if validOrientation τ a then .ok (place c s a τ t (.poly vs)) else .error .assert
+  | .group ss => if validOrientation τ a then .ok (place c s a τ t (.group ss)) else .error .assert
+  | sh => .ok (place c s a τ t sh)
+
+def absQ (x : Rat) : Rat := if x < 0 then -x else x
+
+/-- `occupancy_shape_from_state` for an UNCERTAIN pose (shape.py:590-633; rectangle / polygon shape): the enclosing rectangle.
+    `(lv, wv)` = centred extent of the shape, `(ls, ws)` = centred extent of the position region in the reference frame (0 for
+    an exact position), `(cl, sl)` / `(cw, sw)` = cosine and sine of `δ_l = min(Δψ, arctan(wv/lv))` / `δ_w = min(Δψ, arctan(lv/wv))`,
+    `ctr` = centre of the position region + centre of the shape, `psi` = middle of the orientation interval. -/
+def enclose (cl sl cw sw lv wv ls ws : Rat) (ctr : Pt) (psi : Rat) : Shape :=
+  .rect (ls + lv + absQ ((1 - cl) * lv - sl * wv)) (ws + wv + absQ ((1 - cw) * wv - sw * lv)) ctr psi
+
 end CR.Place
